@@ -146,6 +146,11 @@ func c02Check(c *core.Ctx, pool *cfg.Pool, spec cfg.Spec, cs *c02Case, st sg.Sta
 		if doc != nil {
 			observeShape(c, doc, "")
 		}
+	} else if cs.kind == "inline-model" {
+		c.Count("paragraphs_compared_with_inline_model", 1)
+		if doc != nil {
+			observeShape(c, doc, "inl")
+		}
 	} else if cs.kind == "emphasis-model" {
 		c.Count("emphasis_lines_compared_with_model", 1)
 		if doc != nil && bytes.IndexAny(cs.md, "*_") >= 0 {
@@ -271,6 +276,8 @@ func runC02(c *core.Ctx) {
 		}
 		c02Emph(c, pool, specs[i%2], sb.String())
 	}
+	// part 4: the inline reference model (code spans, links, images, autolinks, raw HTML, entities, escapes, line breaks)
+	runC02Inline(c, pool, specs)
 	// part 1: generated documents
 	n := c.PerShard(c.N(300000, 12000000))
 	for i := 0; i < n; i++ {
